@@ -133,20 +133,20 @@ Proof.
 Qed.
 
 (* ---- 1. the two models read a reply the same way ----------------------------------------- *)
-(* getSupportedVersion: Model.gsv_outcome on the frame = Negotiate.get_supported on the reaction *)
+(* getSupportedVersion: Model.gsv_outcome on the frame = Negotiate.get_supported_strict on the reaction (/repo 6e714d1) *)
 Lemma gsv_corr : forall r f, reply_frame true T_GetSupportedVersionResponse 0 r = Some f ->
-  gsv_outcome f = Ng.get_supported r.
+  gsv_outcome f = Ng.get_supported_strict r.
 Proof.
   intros r f H. destruct r; cbn [reply_frame] in H; inversion H; subst f; clear H;
-    unfold gsv_outcome, Ng.get_supported; cbn [f_len f_typ f_info]; consts.
+    unfold gsv_outcome, Ng.get_supported_strict, Ng.strict_query, Ng.get_supported; cbn [f_len f_typ f_info]; consts.
   - replace (max_buffered <? 10) with false by reflexivity.
     replace (56 =? 100) with false by reflexivity. replace (56 =? 56) with true by reflexivity.
     reflexivity.
   - replace (max_buffered <? 8) with false by reflexivity.
     replace (100 =? 100) with true by reflexivity.
-    destruct (st =? 110) eqn:E1; cbn [orb].
-    + reflexivity.
-    + destruct (st =? 0); reflexivity.
+    destruct (st =? 0) eqn:E0.
+    + apply N.eqb_eq in E0; subst st. reflexivity.
+    + destruct (st =? 110) eqn:E1; cbn [orb]; [reflexivity|]. rewrite E0. reflexivity.
   - replace (max_buffered <? 0) with false by reflexivity.
     destruct (t =? 100); [reflexivity|]. destruct (t =? 56); reflexivity.
   - replace (max_buffered <? max_buffered + 1) with true by reflexivity. reflexivity.
@@ -366,7 +366,7 @@ Proof. reflexivity. Qed.
 Definition agree (nc : Ng.config) (fu : bool) (cmax : N) (r1 r2 : Ng.reaction) (typ kid : N) : Prop :=
   let cfg := lts_cfg nc fu cmax in
   let s := run cfg (canon nc cfg r1 r2 typ kid) in
-  let m := Ng.session nc cmax r1 r2 [Ng.Ack; Ng.Request typ []] in
+  let m := Ng.session nc cmax (Ng.strict_query r1) r2 [Ng.Ack; Ng.Request typ []] in   (* = negotiate_strict: /repo 6e714d1 *)
   map view_o (out s) = map view_m (Ng.n_frames (fst m) ++ snd m) /\
   lts_outcome s = Some (Ng.n_outcome (fst m)) /\
   version s = Ng.n_version (fst m).
@@ -477,7 +477,8 @@ Proof.
     rewrite run_from_app. rewrite answered1 by assumption.
     change (run_from (lts_cfg nc fu cmax) (S2 (PNegotiating NGsv (Some c1)) cmax f false) [NegStep])
       with (step_neg_step (S2 (PNegotiating NGsv (Some c1)) cmax f false)).
-    destruct (Ng.get_supported r1) as [[cur mx]|] eqn:GS.
+    unfold Ng.get_supported_strict in GC.
+    destruct (Ng.get_supported (Ng.strict_query r1)) as [[cur mx]|] eqn:GS.
     + rewrite (negstep1_ok _ _ _ _ _ GC).
       unfold Ng.version in *. remember (if mx <? cmax then mx else cmax) as v eqn:Hv.
       destruct (cur =? v) eqn:CV.
@@ -553,7 +554,7 @@ Qed.
 (* the two reply decoders agree on every reaction that is a reply (used above; of independent
    interest: Model.gsv_outcome / spv_ok vs Negotiate.get_supported / set_accepted) *)
 Theorem reply_decoders_agree : forall r f g,
-  (reply_frame true T_GetSupportedVersionResponse 0 r = Some f -> gsv_outcome f = Ng.get_supported r) /\
+  (reply_frame true T_GetSupportedVersionResponse 0 r = Some f -> gsv_outcome f = Ng.get_supported_strict r) /\
   (reply_frame false T_SetProtocolVersionResponse 1 r = Some g -> spv_ok g = Ng.set_accepted r).
 Proof. intros. split; [apply gsv_corr | apply spv_corr]. Qed.
 
